@@ -118,6 +118,9 @@ def finish(pid, tier, seed, goals, meta, results, ok_canary, canary_info, t0):
             'failed': [o['id'] for o in failed],
             'infrastructure_problems': infra,
             'known_findings': [k.get('finding_id') for k in known],
+            'seeded_self_test': meta.get('seeded_self_test'),
+            'undetected_seeded_changes': [x['seeded_change'] for x in (meta.get('seeded_self_test') or []) if x['verdict'] != 'detected'],
+            'a7_validation': meta.get('a7_validation'),
             'explanation': 'every obligation generated from the contracts of the listed functions (extracted from /repo on this run) was handed to the solver; discharged counts those answered unsat',
         },
         'assumptions': assumptions,
